@@ -18,5 +18,6 @@ go build -overlay "$S/ov/overlay.json" -o "$S/mclib" ./cmd/mclib
 for a in rtcmfilter displayrtcm3 rtcmlogger proxy; do
   go test -c -vet=off -overlay "$S/ov2/overlay.json" -o "$S/$a.test" github.com/goblimey/go-ntrip/apps/$a
 done
+go build -race -o "$S/auxrace" ./cmd/auxrace
 go test -count=1 ./mc/mcrt/ > "$S/mcrt.log" 2>&1 || { cat "$S/mcrt.log"; echo "scheduler self-tests failed"; exit 1; }
 echo setup ok
